@@ -7,7 +7,7 @@
    over. *)
 From Coq Require Import ZArith List Ascii Bool NArith Lia.
 From Cspuz Require Import Lib.PyErr Codec.Comb Codec.CombWf Codec.CombBasics Codec.CombLeaf Codec.CombRoundTrip
-  Codec.TotalModel Codec.TotalLeaf Codec.TotalDims.
+  Codec.TotalModel Codec.TotalLeaf Codec.TotalDims Codec.TotalReencModel.
 Import ListNotations.
 Local Open Scope Z_scope.
 
@@ -22,27 +22,6 @@ Proof.
   - induction H as [|x l Hx _ IH]; [reflexivity|]. rewrite Hx. exact IH.
 Qed.
 
-(* ------------------------------------------------------------------ the serialization domain of a leaf, per item *)
-Definition leaf_dom (c : comb) (v : pv) : bool :=
-  match c with
-  | Dict b _ => existsb (pv_eqb v) b
-  | Spaces sp _ => pv_eqb v sp
-  | DecInt => match v with VInt z => 0 <=? z | _ => false end
-  | HexInt => match v with VInt z => (0 <=? z) && (z <=? 4095) | _ => false end
-  | IntSpaces _ mi _ => match v with VInt z => (0 <=? z) && (z <=? mi) | _ => false end
-  | MultiDigit b _ => match v with VInt z => (0 <=? z) && (z <? b) | _ => false end
-  | _ => false
-  end.
-
-(* the leaves whose serializer looks at one item to decide between None and a result *)
-Definition pleaf (c : comb) : bool :=
-  match c with
-  | Dict _ _ | Spaces _ _ | DecInt | HexInt | IntSpaces _ _ _ => true
-  | _ => false
-  end.
-
-Definition pleafmd (c : comb) : bool :=
-  match c with MultiDigit _ _ => true | _ => pleaf c end.
 
 (* what a decoded item is: in the domain, or the space of an IntSpaces that can emit spaces *)
 Definition item_of (c : comb) (v : pv) : Prop :=
@@ -281,26 +260,6 @@ Proof.
 Qed.
 
 (* ------------------------------------------------------------------ scalar bases: a leaf, or alternatives that are leaves *)
-Definition sdom (c : comb) (v : pv) : bool :=
-  match c with
-  | OneOf l => existsb (fun a => leaf_dom a v) l
-  | _ => leaf_dom c v
-  end.
-
-(* the spaces an IntSpaces alternative emits are accepted by some alternative of the same OneOf *)
-Definition sp_cov (l : list comb) (a : comb) : bool :=
-  match a with
-  | IntSpaces sp _ ms => (ms <=? 0) || existsb (fun a' => leaf_dom a' sp) l
-  | _ => true
-  end.
-
-(* what Seq / Grid / ValuedRooms may loop over for re-encodability *)
-Definition sbase (c : comb) : bool :=
-  match c with
-  | OneOf l => forallb pleaf l && forallb (sp_cov l) l
-  | MultiDigit _ d => negb (Nat.eqb d 0)
-  | _ => pleaf c && sp_cov [c] c
-  end.
 
 Fixpoint oneof_de' (e : env) (s : str) (l : list comb) : dres :=
   match l with
